@@ -620,6 +620,43 @@ Example small_blocks_example_pre_fix :
   Forall (fun b => blen b + blen (p_prefix P_shellpty_pre_fix) + overhead <= max_payload) [block_of 16355; block_of 10].
 Proof. repeat constructor; vm_compute; discriminate. Qed.
 
+(** * The shell client adapter *)
+
+Lemma adapter_exact_from : forall ops st,
+  never_full st ops = true ->
+  let st' := fold_left adapter_step ops st in
+  a_out st' ++ a_queue st' = a_out st ++ a_queue st ++ pushed ops.
+Proof.
+  induction ops as [|o ops IH]; intros st H; cbn [fold_left pushed].
+  - cbn. now rewrite app_nil_r.
+  - destruct o as [m|]; cbn [never_full] in H.
+    + apply andb_prop in H. destruct H as [Hroom Hrest].
+      specialize (IH _ Hrest). cbn zeta in IH. rewrite IH.
+      cbn [adapter_step]. rewrite Hroom. cbn [a_out a_queue]. now rewrite <- !app_assoc.
+    + specialize (IH _ H). cbn zeta in IH. rewrite IH.
+      cbn [adapter_step]. destruct (a_queue st) as [|m q] eqn:Eq; [now rewrite Eq|].
+      cbn [a_out a_queue]. now rewrite <- !app_assoc.
+Qed.
+
+(** If the consumer keeps up, everything pushed comes out, in order. *)
+Theorem adapter_exact_when_never_full : forall ops,
+  never_full {| a_queue := []; a_out := [] |} ops = true ->
+  a_out (adapter_run ops) ++ a_queue (adapter_run ops) = pushed ops.
+Proof.
+  intros ops H. unfold adapter_run. now rewrite (adapter_exact_from ops _ H).
+Qed.
+
+(** 65 messages while the consumer is paused: the 65th is dropped. *)
+Lemma adapter_drops_refuted : exists ops : list aop,
+  a_out (fold_left adapter_step (ops ++ repeat APop 100) {| a_queue := []; a_out := [] |}) <> pushed ops.
+Proof.
+  exists (repeat (APush [x2a]) 65). intro H. apply (f_equal (@length bytes)) in H. vm_compute in H. discriminate.
+Qed.
+
+Example adapter_keeps_up_example :
+  never_full {| a_queue := []; a_out := [] |} (repeat (APush [x2a]) 64 ++ [APop; APush [x2b]]) = true.
+Proof. vm_compute. reflexivity. Qed.
+
 (** * Table compared with the regenerated source facts *)
 
 From Coq Require String.
